@@ -30,22 +30,25 @@ ORDERS = {
 
 
 def build(kinds, keys):
+    # start lines DEcrease along the list order (a library filled from two documents / blocks moved by replace):
+    # the order the statement speaks of is the order of the library, not of the recorded line numbers
     blocks = []
     i = 0
+    n = len(kinds)
     for kd in kinds:
         k = keys[i]
         if kd == "S":
-            b = M.String(k, "val", i, "raw" + str(i))
+            b = M.String(k, "val", n - i, "raw" + str(i))
         elif kd == "P":
-            b = M.Preamble("pre", i, "raw" + str(i))
+            b = M.Preamble("pre", n - i, "raw" + str(i))
         elif kd == "E":
-            b = M.Entry("article", k, [M.Field("t", "x")], i, "raw" + str(i))
+            b = M.Entry("article", k, [M.Field("t", "x")], n - i, "raw" + str(i))
         elif kd == "I":
-            b = M.ImplicitComment("ic", i, "raw" + str(i))
+            b = M.ImplicitComment("ic", n - i, "raw" + str(i))
         elif kd == "X":
-            b = M.ExplicitComment("xc", i, "raw" + str(i))
+            b = M.ExplicitComment("xc", n - i, "raw" + str(i))
         else:
-            b = M.ParsingFailedBlock(Exception("boom"), i, "raw" + str(i))
+            b = M.ParsingFailedBlock(Exception("boom"), n - i, "raw" + str(i))
         blocks.append(b)
         i += 1
     return blocks
